@@ -41,7 +41,11 @@ def run_entry(sess, suite, name, mkreq, ndraws, sizes, values, nz=()):
         return
     sess.oracle(r1.raw == r2.raw, "%s: equal source output gave different results" % name, [req])
     sess.oracle(int(r1.f.get("used", total)) == total, "%s drew %s bytes, expected %d (draw sizes %s)" % (name, r1.f.get("used"), total, sizes), [req])
-    v1 = values(r1)
+    try:
+        v1 = values(r1)
+    except (KeyError, IndexError, ValueError) as e:
+        sess.oracle(False, "%s: the result does not contain the expected %d drawn values (missing %s)" % (name, ndraws, e), [req])
+        return
     sess.oracle(len(v1) == ndraws, "%s: expected %d drawn values, observed %d" % (name, ndraws, len(v1)), [req])
     if suite != "toy16":
         sess.oracle(len(set(v1)) == len(v1), "%s: two secret values drawn in one call coincide" % name, [req])
@@ -53,7 +57,10 @@ def run_entry(sess, suite, name, mkreq, ndraws, sizes, values, nz=()):
         rj = sess.call(reqj, EXACT, name + "-draw%d" % j)
         if not rj.ok:
             continue
-        vj = values(rj)
+        try:
+            vj = values(rj)
+        except (KeyError, IndexError, ValueError):
+            continue
         changed = [i for i in range(min(len(v1), len(vj))) if v1[i] != vj[i]]
         sess.oracle(changed == [j], "%s: changing draw %d changed values %s (expected exactly [%d])" % (name, j, changed, j), [req, reqj])
     # a zero draw where a key or nonce is sampled must be discarded and redrawn — never replaced by a fixed value
@@ -65,6 +72,17 @@ def run_entry(sess, suite, name, mkreq, ndraws, sizes, values, nz=()):
         sess.oracle(rz.ok and strip_used(rz.raw) == strip_used(r1.raw) and int(rz.f.get("used", 0)) == total + sizes[j],
                     "%s: an all-zero draw %d (key / nonce) was not discarded and redrawn from the source (%s)" % (name, j, rz.raw[:80]), [req, reqz])
         sess.count("zero-draw")
+    # backends that sample by rejection (32-byte draws, k256 / p256): a draw that is not below the group order is
+    # discarded and redrawn — never mapped to a fixed value (zero) or reduced
+    if suite in ("p256", "secp256k1", "secp256k1-tr") and all(sz == 32 for sz in sizes) and name != "rand_new":   # the randomizer seed is raw bytes, not a scalar
+        for j in range(len(sizes)):
+            off = 32 * j
+            tbo = tb[:off] + b"\xff" * 32 + tb[off:]
+            reqo = mkreq(tbo.hex())
+            ro = sess.call(reqo, EXACT, name + "-outofrange%d" % j)
+            sess.oracle(ro.ok and strip_used(ro.raw) == strip_used(r1.raw) and int(ro.f.get("used", 0)) == total + 32,
+                        "%s: a draw %d that is not below the group order was not discarded and redrawn (%s)" % (name, j, ro.raw[:80]), [req, reqo])
+            sess.count("out-of-range-draw")
     sess.count("entry:" + name)
     sess.count("suite:" + suite)
     sess.case("%s|%s" % (name, req), sample={"suite": suite, "entry": name, "draws": sizes})
